@@ -251,6 +251,58 @@ PLANS = {
         "sample": lambda o: {"src": o["src"], "costs": o["costs"], "raised_name": o["k"], "mask": o["m"]},
         "assumptions": EVAL_ASSUME,
     },
+    "C17": {
+        "mc": {"quick": [{"module": "MCOps", "cfg": "cfg/MCOps.C17.cfg"}], "thorough": [{"module": "MCOps", "cfg": "cfg/MCOps.C17.cfg"}]},
+        "drive": {"quick": [{"args": ["ops", "-for", "C17", "-seed", "{seed}", "-tier", "quick"]}],
+                  "thorough": [{"args": ["ops", "-for", "C17", "-seed", "{seed}", "-tier", "thorough"]}]},
+        "judge": {"module": "JudgeOps", "cfg": "JudgeOps.cfg"},
+        "replay_args": ["ops", "-for", "C17", "-seed", "1", "-tier", "quick"],
+        "engine": "operators",
+        "rule": "one evaluation = ((overlap A B) and (overlap B A), or (in v L); lists as prefix literals folded at compile time, "
+                "as []int64/[]string/[]int/[]int32 variables, as pre-built sets; plain and fast path); lists = every pair of int "
+                "lists of length 0..3 over three elements (duplicates, shared / disjoint), as is and padded with fresh distinct "
+                "elements to combined length 99 / 100 / 101 / 250 on the left, the right or both, shared elements first / middle "
+                "/ last, both element types; empty literal and typed empty lists on either side, mismatched element types, "
+                "scalars; judged: overlap = non-empty intersection, in = membership, symmetric, mismatch = error; non-trivial = "
+                "combined length >= 99 or an empty side or any `in` call",
+        "sample": lambda o: {"call": o["src"], "a": str(o["a"])[:80], "b": str(o["b"])[:80], "outs": o["outs"][:2]},
+        "assumptions": ["TLC, Json module, harness recording"],
+    },
+    "C18": {
+        "mc": {"quick": [{"module": "MCOps", "cfg": "cfg/MCOps.C18.cfg"}], "thorough": [{"module": "MCOps", "cfg": "cfg/MCOps.C18.cfg"}]},
+        "drive": {"quick": [{"args": ["ops", "-for", "C18", "-seed", "{seed}", "-tier", "quick"]}],
+                  "thorough": [{"args": ["ops", "-for", "C18", "-seed", "{seed}", "-tier", "thorough"]}]},
+        "judge": {"module": "JudgeOps", "cfg": "JudgeOps.cfg"},
+        "replay_args": ["ops", "-for", "C18", "-seed", "1", "-tier", "quick"],
+        "engine": "operators",
+        "rule": "kind call: one evaluation = (operator spelling incl. every alias, parameter vector of arity 0..5 over {MIN, MIN+1, "
+                "-2, -1, 0, 1, 2, MAX-1, MAX, 3037000500, -2^32} and wrong types {bool, string, list, nil} at every position, "
+                "zero divisors at every later position; operands as literals (folded), variables, fast path); judged: value = "
+                "two's-complement fold computed on limbs (Int64.tla) / int64 order / boolean fold, error exactly when the table "
+                "says so, all aliases and paths agree; kind divmod: (/ a b) and (% a b) judged by the defining relation of "
+                "truncated division incl. MIN / -1; kind fold: (op a b c) = (op (op a b) c) on observed values; non-trivial = an "
+                "operand outside 31 bits, an arity other than 2, or a zero divisor",
+        "sample": lambda o: {k: o.get(k) for k in ("kind", "canon", "ps", "outs", "a", "b", "q", "r", "op", "ab", "ab_c", "abc") if k in o},
+        "assumptions": ["Int64.tla (validated against TLC integers by MCOps on the small window)", "TLC, Json module, harness recording"],
+    },
+    "C19": {
+        "mc": {"quick": [{"module": "MCVer", "cfg": "cfg/MCVer.quick.cfg"}], "thorough": [{"module": "MCVer", "cfg": "cfg/MCVer.thorough.cfg", "timeout": 3400}]},
+        "drive": {"quick": [{"args": ["ops", "-for", "C19", "-seed", "{seed}", "-tier", "quick"]}],
+                  "thorough": [{"args": ["ops", "-for", "C19", "-seed", "{seed}", "-tier", "thorough"]}]},
+        "judge": {"module": "JudgeOps", "cfg": "JudgeOps.cfg"},
+        "replay_args": ["ops", "-for", "C19", "-seed", "1", "-tier", "quick"],
+        "engine": "operators",
+        "rule": "kind ver: one case = (pair of version strings with 1..4 components from {0,1,2,9,10,99,100,9998,9999, random, "
+                "leading zeros} and invalid ones {10000, 12345, letters, empty, 1a}; valid length absent / 0..5; operator name "
+                "in {version, to_version, t_version}; literal or variable); judged: accepted exactly when valid, exact "
+                "encoding (base 10000, on limbs), <, =, > of the encodings = component-wise comparison with missing components "
+                "as 0; kind date: one case = (civil date/time fields incl. year 1 / 9999, leap days, Feb 30, 2038 boundary; "
+                "default and custom layouts; all eight date operators; broken separator / trailing text / empty), judged: Unix "
+                "seconds = days-from-civil * 86400 + second of day exactly, unparsable => error",
+        "sample": lambda o: {k: o.get(k) for k in ("kind", "src", "ta", "tb", "n", "ea", "eb", "lt", "eq", "gt", "text", "layout", "res") if k in o},
+        "assumptions": ["Go's layout language is not modelled: the driver renders each date from its fields for a fixed list of layouts",
+                        "Int64.tla, Encodings.tla; TLC, Json module, harness recording"],
+    },
 }
 
 ENGINES = [
@@ -265,4 +317,7 @@ ENGINES.append({"name": "capacity", "path": "spec/Capacity.tla, MCCap.tla, Judge
 ENGINES.append({"name": "frontend", "path": "spec/Lexer.tla, Formatter.tla, Parser.tla, MCLayout.tla, MCParse.tla, JudgeLayout.tla, JudgeTotal.tla + harness/fam_layout.go, fam_total.go",
                 "serves_properties": ["C06", "C13", "C14", "C15"],
                 "kind_free_text": "lexer and formatter as character-level machines over model characters; exhaustive short texts; trace validation of the real lexer/formatter"})
+ENGINES.append({"name": "operators", "path": "spec/Operators.tla, Int64.tla, Encodings.tla, MCOps.tla, MCVer.tla, JudgeOps.tla + harness/fam_ops.go",
+                "serves_properties": ["C17", "C18", "C19"],
+                "kind_free_text": "operator table transcribed case by case; laws model-checked on the table; single-operator expressions judged against it (int64 via limbs)"})
 NOT_APPLICABLE = {}
